@@ -306,7 +306,9 @@ class Lexer(object):
                 token is not None and token.type in COMMENTS)):
             line_terminator = self.restricted_line_terminator
             self.restricted_line_terminator = None
-            if token is not None and token.type != 'SEMI':
+            if token is not None and token.type not in ('SEMI', 'COLON'):
+                # (a colon follows when the keyword is the property name
+                # of an object initialiser, section 11.1.5)
                 if self.hidden_tokens:
                     # keep the comments with the real token
                     token.hidden_tokens = self.hidden_tokens
@@ -421,7 +423,11 @@ class Lexer(object):
                 self.line_terminator_seen = True
                 if (self.restricted_line_terminator is None and
                         self.cur_token is not None and
-                        self.cur_token.type in RESTRICTED_PRODUCTION_TOKENS):
+                        self.cur_token.type in RESTRICTED_PRODUCTION_TOKENS
+                        and not (
+                            # used as a property name (section 11.2.1)
+                            self.prev_token is not None and
+                            self.prev_token.type == 'PERIOD')):
                     self.restricted_line_terminator = token
             return token
 
